@@ -138,6 +138,9 @@ def eval_spaces(prop, tier):
         n = 16
         for i in range(n):
             jobs.append(["purity|%d|%d/%d" % (L, i, n)])
+        # material dispatch: one position per material class (bare kings, every specialised endgame, general) + clear
+        for i in range(n):
+            jobs.append(["matpurity|%d|%d/%d" % (3 if q else 4, i, n)])
         for s in men3 + (["KPPk", "KQkp"] if q else special4 + general4):
             sig(s + ";ep=none", 8)
         sig("KQQQk;files=5", 8)
@@ -180,10 +183,11 @@ def run_eval(prop, tier):
         guards = [("pairs", 100000), ("_outcomes", 50)]
     else:
         rule = ("purity: every operation sequence over {eval of 8 positions constructed per process to collide in the pawn cache, clear} "
+                "and every sequence over {eval of one position per material class of the evaluator's dispatch (bare kings, each specialised endgame, general), clear}, "
                 "compared with the same call on a fresh evaluator; bounds: |score| < win_in(MAX_DEPTH) for every evaluation of the listed spaces")
         assumptions = ["the colliding alphabet is found by exhaustive search over pawn structures against this process's random keys",
                        "a fresh PositionScorer is the reference for purity"]
-        guards = [("structures_searched", 1000), ("evaluations", 100000), ("pawn_groups", 500), ("cleared_evaluations", 10000), ("order_pairs", 10000), ("alphabets_with_low32_pair", 1)]
+        guards = [("structures_searched", 1000), ("evaluations", 100000), ("pawn_groups", 500), ("cleared_evaluations", 10000), ("order_pairs", 10000), ("alphabets_with_low32_pair", 1), ("material_sequence_evaluations", 30000), ("material_alphabet_specialised_endgames", 16 * 15)]
     return driver.finish(prop, tier, MC, merged, t0, rule=rule, assumptions=assumptions, guards=guards, replay_fn=replay_eval,
                          technique="exhaustive enumeration of positions / operation sequences on the real evaluator with a differential oracle")
 
